@@ -8,12 +8,14 @@ from harness.common import sim
 PROP = "C46"
 LEAN_MODULES = ["LunaVerif.Props.C46", "LunaVerif.Lemmas.C46View", "LunaVerif.Lemmas.C46Buf", "LunaVerif.Lemmas.C46Ghost",
                 "LunaVerif.Lemmas.C46StepIdle", "LunaVerif.Lemmas.C46StepSend", "LunaVerif.Lemmas.C46StepAck",
-                "LunaVerif.Props.C46Once"]
+                "LunaVerif.Props.C46Once", "LunaVerif.Lemmas.C46Frame", "LunaVerif.Lemmas.C46FrameStep1",
+                "LunaVerif.Lemmas.C46FrameStep2", "LunaVerif.Props.C46Framing"]
 DRIVER = "Driver/C46.lean"
 REQUIRED_THEOREMS = ["seq_advances_only_on_ack", "seq_advances_on_accepting_ack", "retry_resends_same",
                      "nrdy_then_erdy", "in_request_answered", "header_fields_always", "last_word_held",
                      "ss_in_buffers_partial",
-                     "view_next", "inv_step", "ss_in_exactly_once", "ss_in_delivered_prefix", "ss_in_all_delivered"]
+                     "view_next", "inv_step", "ss_in_exactly_once", "ss_in_delivered_prefix", "ss_in_all_delivered",
+                     "invF_step", "ss_in_framing", "ss_in_packets_prefix", "ss_in_packets_bytes"]
 RULE = ("cases = (max_packet_size in 8/16/32/64(/1024 thorough), endpoint 1..15) x reactive scripts: producer transfers with "
         "lengths around 0/mps/2*mps, partial last words, idle gaps, continuous (last=0) mode; host issuing IN requests "
         "(ACK TP with NumP>=1), accepting with NumP 0/1, asking for retries (Retry=1 or repeated sequence number), "
@@ -28,21 +30,18 @@ ASSUMPTIONS = [
     "Retry bit, NumP, tx.ready, done, flow control arbitrary; configuration: max_packet_size % 4 = 0, >= 8, "
     "max_packet_size/4 <= 2^address_width",
 ]
-PARTIAL = ("the model is SuperSpeedStreamInEndpoint as repaired by six fix: commits (branch wt-ssep: 1df4da8 ddf15b0 ce4a978 "
-           "f170f77 50f0842 5e057c5); the unrepaired code violated C46 in six ways (KNOWN_FINDINGS C46), all replayed. "
-           "Proved: the history-level host-view theorem ss_in_exactly_once (for every history allowed by the environment, at "
-           "every cycle: bytes accepted by the host, keyed on sequence numbers, ++ bytes pending in the ping-pong buffers = "
-           "bytes accepted from the producer; corollaries ss_in_delivered_prefix, ss_in_all_delivered), by an inductive "
-           "invariant over a toggle-free formulation proved equal to the co-simulated model (view_next), including packet "
-           "emission under arbitrary tx.ready, retries after lost or duplicated packets and the ZLP follow-up branch; the "
-           "history-level theorem nrdy_then_erdy; and the one-step theorems (sequence number advances exactly on accepting "
-           "ACKs, a retry re-sends the same packet / ZLP with the same number, an IN request is answered in the same cycle, "
-           "header fields, untaken tx word held, buffer bounds). NOT proved: the framing half of the host view at history "
-           "level (every accepted data packet is max_packet_size long or ends a transfer; a ZLP is sent exactly after a "
-           "full packet that ended its transfer) -- the monitor checks it on every trace (sig ss-in-framing); the ERDY "
-           "liveness only as the one-step theorem nrdy_leads_to_erdy_request. max_packet_size = 4 is outside the theorem "
-           "(CfgOK needs >= 8): with one-word buffers a word written in the cycle of an ACK+IN buffer swap is read stale "
-           "(Lean example hStale, replayed on the gateware, see notes/C46.md).")
+PARTIAL = ("the theorems are about SuperSpeedStreamInEndpoint as repaired by six fix: commits (branch wt-ssep: 1df4da8 ddf15b0 "
+           "ce4a978 f170f77 50f0842 5e057c5, cherry-picked into /repo); the unrepaired code violated C46 in six ways "
+           "(KNOWN_FINDINGS C46), all replayed. Proved at history level, for every history allowed by the environment: "
+           "ss_in_exactly_once (bytes accepted by the host, keyed on sequence numbers, ++ bytes pending in the ping-pong "
+           "buffers = bytes accepted from the producer) and ss_in_framing (packets accepted by the host ++ packets held by "
+           "the endpoint = the reference packetization of the producer stream: short packet or full packet + ZLP at every "
+           "transfer end, full packets in between), both by inductive invariants over a toggle-free formulation proved "
+           "equal to the co-simulated model (view_next); nrdy_then_erdy; plus the one-step theorems (sequence number, "
+           "retry, IN request answered, header fields, tx word held). NOT covered: max_packet_size = 4 (CfgOK needs >= 8): "
+           "there the property is FALSE of the gateware -- with one-word buffers a word written in the cycle of an ACK+IN "
+           "buffer swap is sent stale (Lean example hStale, replayed on the real gateware, notes/C46.md); the ERDY "
+           "liveness is the one-step theorem nrdy_leads_to_erdy_request (no bound in cycles is stated).")
 
 T_ANSWER = 24
 T_STUCK = 120
